@@ -33,14 +33,15 @@ Nodes == 1..st.n
 Quiet == Ok(st) /\ st.status = "idle"
 \* user-visible nodes (not lhs_change, not created inside binds)
 Visible == {n \in Nodes : st.def[n].k # "lhs" /\ st.scope[n] = 0 /\ n \in st.handles}
-IntNodes == {n \in Visible : st.def[n].k \in {"var", "const", "map", "map2", "fold", "main", "mwo", "expert"}
+IntNodes == {n \in Visible : (st.def[n].k \in {"var", "const", "map", "map2", "fold", "main", "mwo", "expert"}
+                                \/ (st.def[n].k = "mapref" /\ st.def[n].f \in {"fst", "snd"}))
                              /\ ~(st.def[n].k = "var" /\ Tag(st.def[n].init) = "n")
                              /\ ~(st.def[n].k = "map" /\ "ctl" \in DOMAIN st.def[n])
                              /\ ~(st.def[n].k = "var" /\ Tag(st.def[n].init) = "p")
                              /\ ~(st.def[n].k = "map" /\ st.def[n].f \in {"dup", "pair0", "halfp", "swap"})
                              /\ ~(st.def[n].k = "map2" /\ st.def[n].f = "pair")
                              /\ ~(st.def[n].k = "mwo" /\ st.def[n].f \in {"dup", "pair0", "halfp", "swap"})}
-PairNodes == Visible \ (IntNodes \cup {n \in Visible : st.def[n].k = "mapref" /\ st.def[n].f # "id"})
+PairNodes == {n \in Visible \ IntNodes : ~(st.def[n].k = "mapref" /\ st.def[n].f = "id" /\ st.def[n].ins[1] \in IntNodes)}
 NumVars == Cardinality({n \in Nodes : st.def[n].k = "var"})
 Creating == st.n < MaxNodes /\ (Late \/ st.no = 0)
 
@@ -253,9 +254,10 @@ Expect(s) ==
            IN Go(d),
    released |-> [n \in 1..s.n |-> n \in Released(StabiliseFinish(s))],
    memo |-> s.memoLog,
+   cut |-> s.cutLog,
    inreads |-> s.readLog,
    rets |-> s.retLog,
-   stable |-> IsStable(s),
+   stable |-> s.rchLen = 0,   \* FALSE = propagation pending, is_stable() must be false
    cells |-> [n \in 1..s.n |-> s.cell[n]]]
 Finish ==
   /\ Ok(st) /\ ~st.poisoned /\ st.status = "handlers" /\ st.runq = <<>>
